@@ -29,7 +29,7 @@ def write_replay(ctx, name, obs):
         'obligation': name,
         'instances': [o.name for o in obs],
         'kind': ob.kind,
-        'goal': str(z3.simplify(ob.goal))[:2000],
+        'goal': (getattr(ob, 'goal_str', None) or str(z3.simplify(ob.goal)))[:2000],
         'meta': ob.meta,
         'solver': getattr(ob, 'solver', None),
         'detail': ob.detail,
